@@ -464,6 +464,10 @@ impl<'this> InternalOptimisingLineFormatter<'this, '_> {
             ),
         };
 
+        let last_line_length = self
+            .get_multiline_token_last_line_length(first_token_index)
+            .unwrap_or(last_line_length);
+
         let invariants = self.get_formatting_invariant(0, line.1);
         if let (Some(DR::MustNotBreak), NL::Break) | (Some(DR::MustBreak), NL::Continue) =
             (invariants, new_line.to_raw())
@@ -1136,6 +1140,22 @@ impl<'this> InternalOptimisingLineFormatter<'this, '_> {
             .map(|decision| decision.last_line_length)
     }
 
+    /// Multiline tokens necessarily have a break in them, so the length of the line they leave
+    /// behind is that of their last line (read from the current contents of the token).
+    fn get_multiline_token_last_line_length(&self, token_index: usize) -> Option<u32> {
+        let (token, _) = self.formatted_tokens.get_token(token_index)?;
+        match token.get_token_type() {
+            TT::TextLiteral(TextLiteralKind::MultiLine)
+            | TT::Comment(CommentKind::MultilineBlock) => token
+                .get_content()
+                .lines()
+                .skip(1)
+                .last()
+                .map(|last_line| last_line.len() as u32),
+            _ => None,
+        }
+    }
+
     fn get_token_line_length(
         &self,
         starting_ws: LineWhitespace,
@@ -1143,18 +1163,10 @@ impl<'this> InternalOptimisingLineFormatter<'this, '_> {
         decision: Decision,
         token_index: Option<usize>,
     ) -> u32 {
-        if let Some((
-            TT::TextLiteral(TextLiteralKind::MultiLine) | TT::Comment(CommentKind::MultilineBlock),
-            token_content,
-        )) = token_index
-            .and_then(|index| self.formatted_tokens.get_token(index))
-            .map(|(token, _)| (token.get_token_type(), token.get_content()))
+        if let Some(last_line_length) =
+            token_index.and_then(|index| self.get_multiline_token_last_line_length(index))
         {
-            // Multiline tokens necessarily have a break in them, so the line
-            // length must be calculated.
-            if let Some(last_line) = token_content.lines().skip(1).last() {
-                return last_line.len() as u32;
-            }
+            return last_line_length;
         }
         match (
             decision,
